@@ -1084,6 +1084,7 @@ func runC20(c *Ctx) {
 	} else {
 		c.Note("schedule_engine", "not run in this invocation")
 	}
+	c20RepeatedReads(c)
 	sys := &immSys{ops: c20Ops()}
 	c.Note("operation_alphabet", fmtInt(len(sys.ops)))
 	exploreE2(c, sys, depth, "history.")
@@ -1100,4 +1101,78 @@ func pkgHasSyncVars(pkg string) bool {
 		}
 	}
 	return false
+}
+
+// c20RepeatedReads: every operation is a function of its operands, so reading one value again and
+// again gives the same answer each time.  The values are chosen so that an answer computed by
+// ranging over a Go map (whose iteration order varies from one range statement to the next and is
+// the one source of nondeterminism the harness cannot steer) would show: sets with members that
+// no comparison orders and that live in different hash buckets, sets / maps / objects with more
+// members than one map bucket holds, nested.  64 reads each; results compared as printed.
+func c20RepeatedReads(c *Ctx) {
+	c.Unit(func(u *U) {
+		a, b, w := cty.NumberFloatVal(0.1), cty.NumberFloatVal(0.1).Add(cty.NumberIntVal(0)), cty.NumberFloatVal(0.1).Multiply(parseNum("1"))
+		var many []cty.Value
+		manyMap := map[string]cty.Value{}
+		for i := 0; i < 20; i++ {
+			many = append(many, cty.NumberIntVal(int64(i*7919)))
+			manyMap[fmt.Sprintf("k%02d", i)] = cty.StringVal(fmt.Sprint(i))
+		}
+		caps := []cty.Value{cty.CapsuleVal(capsTypes[0], &capsNative{1}), cty.CapsuleVal(capsTypes[0], &capsNative{2}), cty.CapsuleVal(capsTypes[0], &capsNative{3})}
+		vals := []cty.Value{
+			cty.SetVal([]cty.Value{a, b}), cty.SetVal([]cty.Value{a, b, w}), cty.SetVal([]cty.Value{w, a, cty.NumberIntVal(1), b}),
+			cty.SetVal([]cty.Value{cty.TupleVal([]cty.Value{a}), cty.TupleVal([]cty.Value{b}), cty.TupleVal([]cty.Value{w})}),
+			cty.ObjectVal(map[string]cty.Value{"s": cty.SetVal([]cty.Value{a, w})}),
+			cty.SetVal(many), cty.MapVal(manyMap), cty.ObjectVal(manyMap), cty.SetVal(caps),
+			cty.SetVal([]cty.Value{cty.StringVal("a"), cty.StringVal("b"), cty.UnknownVal(cty.String), cty.UnknownVal(cty.String).RefineNotNull()}),
+		}
+		reads := []struct {
+			name string
+			f    func(v cty.Value) string
+		}{
+			{"GoString", func(v cty.Value) string { return goStr(v) }},
+			{"ElementIterator", func(v cty.Value) string {
+				s := ""
+				for it := v.ElementIterator(); it.Next(); {
+					k, e := it.Element()
+					s += goStr(k) + "=" + goStr(e) + ";"
+				}
+				return s
+			}},
+			{"RawEquals(self)", func(v cty.Value) string { return fmt.Sprint(v.RawEquals(v)) }},
+			{"Equals(self)", func(v cty.Value) string { return goStr(v.Equals(v)) }},
+			{"Type", func(v cty.Value) string { return v.Type().GoString() }},
+			{"Range", func(v cty.Value) string {
+				r := v.Range()
+				return fmt.Sprint(r.DefinitelyNotNull(), r.LengthLowerBound(), r.LengthUpperBound())
+			}},
+		}
+		for _, v := range vals {
+			for _, rd := range reads {
+				u.Eval(1)
+				u.DistinctN(1)
+				var first string
+				ok := func() (ok bool) {
+					defer func() { recover() }()
+					first = rd.f(v)
+					return true
+				}()
+				if !ok {
+					continue
+				}
+				for k := 0; k < 64; k++ {
+					again := ""
+					func() {
+						defer func() { recover() }()
+						again = rd.f(v)
+					}()
+					if again != first {
+						u.Violation("purity.repeated-read-differs", shapeOf(v)+" / "+rd.name, fmt.Sprintf("%s of one value read repeatedly gives %s and then %s", rd.name, trunc(first, 300), trunc(again, 300)))
+						break
+					}
+				}
+				u.Class("repeated-read-stable")
+			}
+		}
+	})
 }
